@@ -35,7 +35,16 @@ pub enum RegKind {
 
 #[derive(Clone, Debug, Serialize, Deserialize)]
 pub enum Ev {
-    Reg { name: u8, ctx: u8, kind: RegKind, resume_head: bool },
+    Reg {
+        name: u8,
+        ctx: u8,
+        kind: RegKind,
+        resume_head: bool,
+        /// the `.register` frame is emitted by an installer handler from its closure (it then
+        /// carries that handler's `handler_id` / `frame_id` stamps) instead of by the client
+        #[serde(default)]
+        via_handler: bool,
+    },
     Unreg { name: u8, ctx: u8 },
     Boom { name: u8, ctx: u8 },
     /// a frame on which the handler unregisters itself (its closure appends `<name>.unregister`)
@@ -53,8 +62,8 @@ pub struct C16Case {
 
 pub fn strategy() -> BoxedStrategy<C16Case> {
     let ev = prop_oneof![
-        6 => (0u8..2, 0u8..2, prop_oneof![6 => Just(RegKind::Valid), 2 => Just(RegKind::SameAsActive), 1 => Just(RegKind::BadArity), 1 => Just(RegKind::ParseError), 1 => Just(RegKind::ConfigError), 1 => Just(RegKind::NoContent), 1 => Just(RegKind::TwoParams), 1 => Just(RegKind::BadResume)], prop_oneof![3 => Just(false), 1 => Just(true)])
-            .prop_map(|(name, ctx, kind, resume_head)| Ev::Reg { name, ctx, kind, resume_head }),
+        6 => (0u8..2, 0u8..2, prop_oneof![6 => Just(RegKind::Valid), 2 => Just(RegKind::SameAsActive), 1 => Just(RegKind::BadArity), 1 => Just(RegKind::ParseError), 1 => Just(RegKind::ConfigError), 1 => Just(RegKind::NoContent), 1 => Just(RegKind::TwoParams), 1 => Just(RegKind::BadResume)], prop_oneof![3 => Just(false), 1 => Just(true)], prop_oneof![4 => Just(false), 1 => Just(true)])
+            .prop_map(|(name, ctx, kind, resume_head, via_handler)| Ev::Reg { name, ctx, kind, resume_head, via_handler }),
         2 => (0u8..2, 0u8..2).prop_map(|(name, ctx)| Ev::Unreg { name, ctx }),
         2 => (0u8..2, 0u8..2).prop_map(|(name, ctx)| Ev::Boom { name, ctx }),
         1 => (0u8..2, 0u8..2).prop_map(|(name, ctx)| Ev::SelfStop { name, ctx }),
@@ -99,6 +108,16 @@ fn script(name: &str, version: usize, kind: &RegKind, resume_head: bool) -> Stri
     }
 }
 
+const BOOT: &str = r#"{
+  run: {|frame|
+    if ($frame.topic | str starts-with "install.") {
+      let n = ($frame.topic | str replace "install." "")
+      .cas $frame.hash | .append $"($n).register"
+    }
+    null
+  }
+}"#;
+
 fn life(msg: String) -> Fail {
     Fail::new(Class::Follow, msg)
 }
@@ -132,6 +151,20 @@ fn run_in(case: &C16Case, nu: &mut Nu) -> Result<CaseInfo, Fail> {
         must("schedule", nu.exec.call(&crate::exec::Cmd::SetDelays { delays }).map(|_| ()))?;
     }
     let ctxs = [ZERO, nu.register_ctx()?];
+    // an installer handler per context: it turns `install.<name>` frames into `<name>.register`
+    // frames with the same content, emitted from its closure
+    let mut installed_by_handler = false;
+    if case.events.iter().any(|e| matches!(e, Ev::Reg { via_handler: true, .. })) {
+        for c in ctxs {
+            let b = nu.append("boot.register", c, Some(BOOT.as_bytes()), None)?;
+            let (_, ok) = nu.wait(Duration::from_secs(30), |fr| {
+                fr.iter().any(|w| w.topic == "boot.registered" && meta_of(w, "handler_id").as_deref() == Some(&b.id))
+            })?;
+            if !ok {
+                return Err(life(format!("boot.register {} was not followed by boot.registered within 30 s", b.id)));
+            }
+        }
+    }
     let mut insts: Vec<Inst> = Vec::new();
     // (ctx, name) -> index of the active instance
     let mut active: BTreeMap<(u8, u8), usize> = BTreeMap::new();
@@ -172,7 +205,7 @@ fn run_in(case: &C16Case, nu: &mut Nu) -> Result<CaseInfo, Fail> {
 
     for ev in &case.events {
         match ev {
-            Ev::Reg { name, ctx, kind, resume_head } => {
+            Ev::Reg { name, ctx, kind, resume_head, via_handler } => {
                 let n = NAMES[*name as usize];
                 let mut version = insts.len() + 1;
                 let valid = matches!(kind, RegKind::Valid | RegKind::SameAsActive);
@@ -186,12 +219,26 @@ fn run_in(case: &C16Case, nu: &mut Nu) -> Result<CaseInfo, Fail> {
                 }
                 let resume_head = &resume_head;
                 let text = script(n, version, kind, *resume_head);
-                let reg = nu.append(
-                    &format!("{n}.register"),
-                    ctxs[*ctx as usize],
-                    if *kind == RegKind::NoContent { None } else { Some(text.as_bytes()) },
-                    None,
-                )?;
+                let reg = if *via_handler && *kind != RegKind::NoContent {
+                    let ins = nu.append(&format!("install.{n}"), ctxs[*ctx as usize], Some(text.as_bytes()), None)?;
+                    let topic = format!("{n}.register");
+                    let (fr, ok) = nu.wait(t20, |fr| fr.iter().any(|w| w.topic == topic && meta_of(w, "frame_id").as_deref() == Some(&ins.id)))?;
+                    if !ok {
+                        return Err(life(format!(
+                            "the installer handler of context {ctx} was registered, but it never emitted {topic} for frame {} (30 s)",
+                            ins.id
+                        )));
+                    }
+                    installed_by_handler = true;
+                    fr.into_iter().find(|w| w.topic == topic && meta_of(w, "frame_id").as_deref() == Some(&ins.id)).unwrap()
+                } else {
+                    nu.append(
+                        &format!("{n}.register"),
+                        ctxs[*ctx as usize],
+                        if *kind == RegKind::NoContent { None } else { Some(text.as_bytes()) },
+                        None,
+                    )?
+                };
                 let prev = active.remove(&(*ctx, *name));
                 if prev.is_some() {
                     // right behind the replacing frame, before the old instance has reached it: the
@@ -399,6 +446,7 @@ fn run_in(case: &C16Case, nu: &mut Nu) -> Result<CaseInfo, Fail> {
         (insts.iter().any(|i| !i.valid), "invalid-registration"),
         (identical_redeploy, "re-register-with-identical-script"),
         (self_stopped, "handler-unregisters-itself"),
+        (installed_by_handler, "register-emitted-by-a-handler"),
     ] {
         if on {
             labels.push(name.to_string());
@@ -423,7 +471,7 @@ pub fn run(tier: Tier, seed: u64, replay: Option<&std::path::Path>) -> i32 {
         25,
         strategy,
         run_case,
-        "event sequences (1..13) over two handler names and two contexts: register (valid, the byte-identical script of the active instance, closure without parameter, parse error, configuration script that raises, no content at all; resume tail or head), re-register, unregister, a trigger that makes the closure fail, probes; after every valid registration a probe is appended the moment `<name>.registered` becomes visible; the handler's subscribe and announce steps are optionally delayed by 5 or 20 ms through the verif sync points. Oracle: every probe appended after `.registered` is processed (8 s bound); per instance at most one `.registered`, exactly one `.unregistered` with its id (carrying an error iff it stopped on one) for every stop reason and none while active, nothing stamped with it after its `.unregistered`; every probe is answered by exactly the active instances of its context, with the content of their own script version. Non-trivial = a replacement or an error stop followed by a probe, or a delayed subscribe step. Distinct by case hash.",
+        "event sequences (1..13) over two handler names and two contexts: register (valid, the byte-identical script of the active instance, closure without parameter, parse error, configuration script that raises, no content at all; resume tail or head; appended by the client or emitted by an installer handler from its closure), re-register, unregister, a trigger that makes the closure fail, probes; after every valid registration a probe is appended the moment `<name>.registered` becomes visible; the handler's subscribe and announce steps are optionally delayed by 5 or 20 ms through the verif sync points. Oracle: every probe appended after `.registered` is processed (8 s bound); per instance at most one `.registered`, exactly one `.unregistered` with its id (carrying an error iff it stopped on one) for every stop reason and none while active, nothing stamped with it after its `.unregistered`; every probe is answered by exactly the active instances of its context, with the content of their own script version. Non-trivial = a replacement or an error stop followed by a probe, or a delayed subscribe step. Distinct by case hash.",
         vec!["absence of answers from stopped instances is observed until 25 ms after the last probe was answered".to_string()],
         2,
     )
